@@ -2,6 +2,8 @@ package main
 
 import (
 	"encoding/json"
+	"math"
+	"sort"
 
 	"github.com/paulmach/orb"
 	"github.com/paulmach/orb/quadtree"
@@ -12,6 +14,47 @@ import (
 type qtPtr struct {
 	id int
 	p  orb.Point
+	l  [2]int // the point in model coordinates (see qtMap)
+}
+
+// qtMap relates model coordinates (integers) to the float64 coordinates given to the real tree.
+//   plain:  real = int
+//   scaled: real = int / div (div a power of two: exact), distance limits likewise - a unit-square tree
+//   ranked: real = pool[int], an arbitrary increasing table of floats (non-dyadic bounds, cell midlines, values
+//           one ulp apart): only order-based operations are judged (add, remove, bound search)
+type qtMap struct {
+	div    float64
+	ranked bool
+	pool   []float64
+	lo, hi int
+}
+
+func (m *qtMap) real(v int) float64 {
+	if m == nil {
+		return float64(v)
+	}
+	if m.ranked {
+		return m.pool[v]
+	}
+	return float64(v) / m.div
+}
+func (m *qtMap) dist(v int) float64 {
+	if m == nil {
+		return float64(v)
+	}
+	return float64(v) / m.div
+}
+func (m *qtMap) pt(p [2]int) orb.Point { return orb.Point{m.real(p[0]), m.real(p[1])} }
+
+// cell converts a cell edge to model units of 1/1024 (exact for plain and scaled maps)
+func (m *qtMap) cell(v float64) int {
+	if m == nil {
+		return int(v * 1024)
+	}
+	if m.ranked {
+		return 0
+	}
+	return int(v * m.div * 1024)
 }
 
 func (p *qtPtr) Point() orb.Point { return p.p }
@@ -30,6 +73,7 @@ type qtEv struct {
 	KNN   [][]int  `json:"knn"`
 	Inb   [][]int  `json:"inb"`
 	NT    int      `json:"nt"`
+	Rk    int      `json:"ranked"`
 }
 
 type qtQueries struct {
@@ -39,6 +83,7 @@ type qtQueries struct {
 	boxes   [][4]int
 	filters [][2]int
 	noQuery bool
+	m       *qtMap
 }
 
 func accept(f [2]int) quadtree.FilterFunc {
@@ -56,29 +101,30 @@ func qtObserve(q *quadtree.Quadtree, e *qtEv, qs *qtQueries, bufs bool) {
 		q.VerifWalk(func(path []int, v orb.Pointer, cell orb.Bound) {
 			if v != nil {
 				vp := v.(*qtPtr)
-				e.Items = append(e.Items, [3]int{vp.id, int(vp.p[0]), int(vp.p[1])})
+				e.Items = append(e.Items, [3]int{vp.id, vp.l[0], vp.l[1]})
 			}
 		})
 	} else {
 		for _, x := range q.InBound(nil, orb.Bound{Min: orb.Point{-1e9, -1e9}, Max: orb.Point{1e9, 1e9}}) {
 			xp := x.(*qtPtr)
-			e.Items = append(e.Items, [3]int{xp.id, int(xp.p[0]), int(xp.p[1])})
+			e.Items = append(e.Items, [3]int{xp.id, xp.l[0], xp.l[1]})
 		}
 	}
 	q.VerifWalk(func(path []int, v orb.Pointer, cell orb.Bound) {
 		// cell edges in units of 1/1024 (exact: the generators keep the tree shallower than 10 halvings of
 		// an integer-wide cell)
-		row := [7]int{0, 0, 0, int(cell.Min[0] * 1024), int(cell.Max[0] * 1024), int(cell.Min[1] * 1024), int(cell.Max[1] * 1024)}
+		m := qs.m
+		row := [7]int{0, 0, 0, m.cell(cell.Min[0]), m.cell(cell.Max[0]), m.cell(cell.Min[1]), m.cell(cell.Max[1])}
 		if v != nil {
 			vp := v.(*qtPtr)
-			row[0], row[1], row[2] = vp.id, int(vp.p[0]), int(vp.p[1])
+			row[0], row[1], row[2] = vp.id, vp.l[0], vp.l[1]
 		}
 		e.Nodes = append(e.Nodes, row)
 	})
 	for _, f := range qs.filters {
 		ff := accept(f)
 		for _, qp := range qs.pts {
-			pt := orb.Point{float64(qp[0]), float64(qp[1])}
+			pt := qs.m.pt(qp)
 			var fnd orb.Pointer
 			if ff == nil {
 				fnd = q.Find(pt)
@@ -87,7 +133,7 @@ func qtObserve(q *quadtree.Quadtree, e *qtEv, qs *qtQueries, bufs bool) {
 			}
 			id := 0
 			if fnd != nil {
-				id = fnd.(*qtPtr).id
+				id = qtID(fnd)
 			}
 			e.Finds = append(e.Finds, []int{qp[0], qp[1], f[0], f[1], id})
 			for _, k := range qs.ks {
@@ -101,22 +147,22 @@ func qtObserve(q *quadtree.Quadtree, e *qtEv, qs *qtQueries, bufs bool) {
 					case ff == nil && md == 0:
 						res = q.KNearest(buf, pt, k)
 					case ff == nil:
-						res = q.KNearest(buf, pt, k, float64(md))
+						res = q.KNearest(buf, pt, k, qs.m.dist(md))
 					case md == 0:
 						res = q.KNearestMatching(buf, pt, k, ff)
 					default:
-						res = q.KNearestMatching(buf, pt, k, ff, float64(md))
+						res = q.KNearestMatching(buf, pt, k, ff, qs.m.dist(md))
 					}
 					row := []int{qp[0], qp[1], k, md, f[0], f[1]}
 					for _, x := range res {
-						row = append(row, x.(*qtPtr).id)
+						row = append(row, qtID(x))
 					}
 					e.KNN = append(e.KNN, row)
 				}
 			}
 		}
 		for _, b := range qs.boxes {
-			bb := orb.Bound{Min: orb.Point{float64(b[0]), float64(b[1])}, Max: orb.Point{float64(b[2]), float64(b[3])}}
+			bb := orb.Bound{Min: qs.m.pt([2]int{b[0], b[1]}), Max: qs.m.pt([2]int{b[2], b[3]})}
 			var buf []orb.Pointer
 			if bufs {
 				buf = make([]orb.Pointer, 0, 2)
@@ -129,11 +175,19 @@ func qtObserve(q *quadtree.Quadtree, e *qtEv, qs *qtQueries, bufs bool) {
 			}
 			row := []int{b[0], b[1], b[2], b[3], f[0], f[1]}
 			for _, x := range res {
-				row = append(row, x.(*qtPtr).id)
+				row = append(row, qtID(x))
 			}
 			e.Inb = append(e.Inb, row)
 		}
 	}
+}
+
+// qtID: the identity of a returned pointer; a nil in a result list is reported as -1 (no model accepts it)
+func qtID(x orb.Pointer) int {
+	if p, ok := x.(*qtPtr); ok && p != nil {
+		return p.id
+	}
+	return -1
 }
 
 type qtOp struct {
@@ -144,12 +198,15 @@ type qtOp struct {
 }
 
 // qtApply performs one operation on the real tree and returns the event (queries not yet filled).
-func qtApply(q *quadtree.Quadtree, ptrs map[int]*qtPtr, next *int, bnd [4]int, op string, p [2]int, id int) (qtEv, string) {
+func qtApply(q *quadtree.Quadtree, ptrs map[int]*qtPtr, next *int, bnd [4]int, op string, p [2]int, id int, m *qtMap) (qtEv, string) {
 	e := qtEv{K: "qt", Op: op, Bnd: bnd, Pt: p, ID: id}
+	if m != nil && m.ranked {
+		e.Rk = 1
+	}
 	site := guard(func() {
 		switch op {
 		case "add":
-			ptr := &qtPtr{id: *next, p: orb.Point{float64(p[0]), float64(p[1])}}
+			ptr := &qtPtr{id: *next, p: m.pt(p), l: p}
 			e.ID = *next
 			if err := q.Add(ptr); err != nil {
 				e.Res = "err"
@@ -159,14 +216,14 @@ func qtApply(q *quadtree.Quadtree, ptrs map[int]*qtPtr, next *int, bnd [4]int, o
 				*next++
 			}
 		case "rmpt":
-			if q.Remove(orb.Point{float64(p[0]), float64(p[1])}, nil) {
+			if q.Remove(m.pt(p), nil) {
 				e.Res = "true"
 			} else {
 				e.Res = "false"
 			}
 		case "rmid":
 			ptr := ptrs[id]
-			e.Pt = [2]int{int(ptr.p[0]), int(ptr.p[1])}
+			e.Pt = ptr.l
 			if q.Remove(ptr, func(x orb.Pointer) bool { return x.(*qtPtr) == ptr }) {
 				e.Res = "true"
 			} else {
@@ -217,7 +274,7 @@ func init() {
 					p = h.Pts[o.K-1]
 				}
 				setCurrent("quadtree."+o.Op, h)
-				e, site := qtApply(q, ptrs, &next, bnd, o.Op, p, o.ID)
+				e, site := qtApply(q, ptrs, &next, bnd, o.Op, p, o.ID, nil)
 				if site == "" {
 					obs := qs
 					if c.thorough() && i < len(h.H)-1 {
@@ -236,9 +293,9 @@ func init() {
 		})
 	})
 
-	// (T) seeded random histories of hundreds of operations over 16 distinct points
+	// (T) seeded random histories of hundreds of operations over 16 distinct points, in three coordinate maps
 	register("qtrandom", func(c *ctx) {
-		nh := c.pick(32, 320)
+		nh := c.pick(48, 480)
 		for hI := 0; hI < nh; hI++ {
 			shard := hI % c.shards
 			// bound [0,1024]^2 (or an offset one); points on midlines of several depths, on the bound, duplicates
@@ -246,32 +303,55 @@ func init() {
 			if hI%3 == 1 {
 				off = -512
 			}
-			bnd := [4]int{off, off, off + 1024, off + 1024}
-			q := quadtree.New(orb.Bound{Min: orb.Point{float64(off), float64(off)}, Max: orb.Point{float64(off + 1024), float64(off + 1024)}})
+			var m *qtMap
+			lo, hi := off, off+1024 // the tree bound in model coordinates
+			switch hI % 6 {
+			case 2, 5:
+				m = &qtMap{div: 1024} // a unit-square tree: distance limits below 1
+			case 3:
+				m = qtRankedMap(c)
+				off, lo, hi = 0, m.lo, m.hi
+			}
+			bnd := [4]int{lo, lo, hi, hi}
+			q := quadtree.New(orb.Bound{Min: m.pt([2]int{lo, lo}), Max: m.pt([2]int{hi, hi})})
+			coord := func() int {
+				if m != nil && m.ranked {
+					if c.rng.Intn(12) == 0 {
+						return c.rng.Intn(len(m.pool)) // possibly outside the bound
+					}
+					return lo + c.rng.Intn(hi-lo+1)
+				}
+				switch c.rng.Intn(4) {
+				case 0:
+					return off + 64*c.rng.Intn(17) // midlines / bound
+				case 1:
+					return off + 512
+				}
+				return off + c.rng.Intn(1025)
+			}
 			var alphabet [][2]int
 			for len(alphabet) < 16 {
-				var p [2]int
-				for d := 0; d < 2; d++ {
-					switch c.rng.Intn(4) {
-					case 0:
-						p[d] = off + 64*c.rng.Intn(17) // midlines / bound
-					case 1:
-						p[d] = off + 512
-					default:
-						p[d] = off + c.rng.Intn(1025)
-					}
-				}
-				if c.rng.Intn(12) == 0 {
+				p := [2]int{coord(), coord()}
+				if (m == nil || !m.ranked) && c.rng.Intn(12) == 0 {
 					p[c.rng.Intn(2)] = off + 1024 + 1 + c.rng.Intn(50) // outside the bound
 				}
 				alphabet = append(alphabet, p)
 			}
-			qs := &qtQueries{ks: []int{1, 2, 5}, mds: []int{0, 200}, filters: [][2]int{{1, 0}, {3, 1}}}
-			for i := 0; i < 4; i++ {
-				qs.pts = append(qs.pts, alphabet[c.rng.Intn(16)], [2]int{off + c.rng.Intn(1025), off + c.rng.Intn(1025)})
+			qs := &qtQueries{ks: []int{1, 2, 5}, mds: []int{0, 200}, filters: [][2]int{{1, 0}, {3, 1}}, m: m}
+			if m == nil || !m.ranked {
+				for i := 0; i < 4; i++ {
+					qs.pts = append(qs.pts, alphabet[c.rng.Intn(16)], [2]int{off + c.rng.Intn(1025), off + c.rng.Intn(1025)})
+				}
 			}
-			for i := 0; i < 3; i++ {
+			nbox := 3
+			if m != nil && m.ranked {
+				nbox = 8
+			}
+			for i := 0; i < nbox; i++ {
 				a, b := alphabet[c.rng.Intn(16)], alphabet[c.rng.Intn(16)]
+				if i%4 == 3 {
+					b = a // the degenerate box {p, p}
+				}
 				bx := [4]int{a[0], a[1], b[0], b[1]}
 				if bx[0] > bx[2] {
 					bx[0], bx[2] = bx[2], bx[0]
@@ -290,7 +370,7 @@ func init() {
 				op, p, id := "add", alphabet[c.rng.Intn(16)], 0
 				dups := 0
 				for _, lid := range live {
-					if lp := ptrs[lid]; int(lp.p[0]) == p[0] && int(lp.p[1]) == p[1] {
+					if lp := ptrs[lid]; lp.l == p {
 						dups++
 					}
 				}
@@ -310,7 +390,7 @@ func init() {
 					}
 				}
 				setCurrent("quadtree."+op, alphabet)
-				e, site := qtApply(q, ptrs, &next, bnd, op, p, id)
+				e, site := qtApply(q, ptrs, &next, bnd, op, p, id, m)
 				if site == "" {
 					site = guard(func() { qtObserve(q, &e, qs, i%2 == 1) })
 				}
@@ -327,4 +407,54 @@ func init() {
 			}
 		}
 	})
+}
+
+// qtRankedMap builds an increasing table of floats around a non-dyadic interval [l, r]: the interval ends, the
+// midlines of its cells to depth 4 (by either way of writing a midpoint), their one-ulp neighbours, values in
+// between and values outside. lo / hi are the table positions of l and r.
+func qtRankedMap(c *ctx) *qtMap {
+	ivs := [][2]float64{{-2, 0.2}, {0.1, 0.7}, {-1.3, 3.1}, {1e-3, 1e3}, {-180, 180.000001}, {0.3, 1.1}}
+	iv := ivs[c.rng.Intn(len(ivs))]
+	l, r := iv[0], iv[1]
+	set := map[float64]bool{l: true, r: true}
+	var rec func(a, b float64, d int)
+	rec = func(a, b float64, d int) {
+		if d == 0 {
+			return
+		}
+		m1, m2 := (a+b)/2, a+(b-a)/2
+		for _, v := range []float64{m1, m2} {
+			set[v] = true
+			if c.rng.Intn(3) == 0 {
+				set[math.Nextafter(v, math.Inf(1))] = true
+			}
+			if c.rng.Intn(3) == 0 {
+				set[math.Nextafter(v, math.Inf(-1))] = true
+			}
+		}
+		rec(a, m1, d-1)
+		rec(m1, b, d-1)
+	}
+	rec(l, r, 4)
+	for i := 0; i < 12; i++ {
+		set[l+(r-l)*c.rng.Float64()] = true
+	}
+	w := r - l
+	for _, v := range []float64{l - w/3, l - w*2, math.Nextafter(l, math.Inf(-1)), math.Nextafter(r, math.Inf(1)), r + w/7, r + w*3} {
+		set[v] = true
+	}
+	m := &qtMap{ranked: true}
+	for v := range set {
+		m.pool = append(m.pool, v)
+	}
+	sort.Float64s(m.pool)
+	for i, v := range m.pool {
+		if v == l {
+			m.lo = i
+		}
+		if v == r {
+			m.hi = i
+		}
+	}
+	return m
 }
